@@ -178,10 +178,15 @@ func init() {
 				continue
 			}
 			rec := FindRec{ID: id, P: p, O: o, Dia: dia, RTL: isRTL, Text: text, Cases: []FindCase{}}
+			probe := newSpecProbe(text, optBits(o, dia, isRTL))
 			for _, s := range g.Inputs(t, *ni, *maxLen, alpha) {
 				in := intsToRunes(s)
 				c := FindCase{S: s, Res: make([]Res, 0, len(s)+1)}
-				heavy := false
+				heavy := probe.heavy(in, isRTL)
+				if heavy {
+					skipped++
+					continue
+				}
 				for st := 0; st <= len(in); st++ {
 					c.Res = append(c.Res, findRunesAt(re, in, st))
 					// cost guard: the specification is evaluated by TLC, about three orders of magnitude
